@@ -4,6 +4,7 @@
 mod coll;
 mod scen;
 mod acc;
+mod psn;
 mod values;
 mod vtree;
 mod view;
@@ -592,6 +593,9 @@ fn main() {
 			out.flush().unwrap();
 		} else if line.trim() == "ttypes" {
 			writeln!(out, "{}", vtree::list()).unwrap();
+		} else if line.starts_with("pq ") {
+			writeln!(out, "{}", psn::run(&line)).unwrap();
+			out.flush().unwrap();
 		} else if line.starts_with("a ") {
 			writeln!(out, "{}", acc::run(&line)).unwrap();
 			out.flush().unwrap();
